@@ -1,9 +1,45 @@
-import Driver.Codec
+import Driver.Ops
+import XdocModel.Stdlib
 /-! Protocol ops of the `Stdlib` cluster: decode, call the model, print. -/
 namespace Xdoc.Driver
-open Xdoc
+open Xdoc Xdoc.Std Py Re
+
+/-- two or three bits: ELLIPSIS, NORMALIZE_WHITESPACE[, IGNORE_EXCEPTION_DETAIL] -/
+def decStdFlags (f : String) : StdFlags :=
+  match decBits f with
+  | [e, n, d] => { ellipsis := e, normWs := n, ignDetail := d }
+  | [e, n] => { ellipsis := e, normWs := n }
+  | _ => { ellipsis := false, normWs := false }
+
+/-- index bit 1 = ELLIPSIS, bit 0 = NORMALIZE_WHITESPACE -/
+def allStdFlags : List StdFlags :=
+  [{ ellipsis := false, normWs := false }, { ellipsis := false, normWs := true },
+   { ellipsis := true, normWs := false }, { ellipsis := true, normWs := true }]
 
 def opsStdlib : List String → Option String
+  | ["std_check", f, g, w] => some (encBool (stdCheck (decStdFlags f) (decStr g) (decStr w)))
+  | ["std_ellipsis", g, w] => some (encBool (stdEllipsis (decStr g) (decStr w)))
+  | ["std_split", w] => some (encStrList (splitDots (decStr w)))
+  | ["std_to_ascii", s] => some (encStr (toAscii (decStr s)))
+  | ["std_blank_want", s] => some (encStr (stdBlankWant (decStr s)))
+  | ["std_blank_got", s] => some (encStr (stdBlankGot (decStr s)))
+  | ["std_exc_match", w] => some (encOptStr (stdExcMatch (decStr w)))
+  | ["std_strip_details", s] => some (encStr (stdStripDetails (decStr s)))
+  | ["std_exc_check", f, g, w] =>
+    some (match stdExcCheck (decStdFlags f) (decStr g) (decStr w) with
+      | none => "boom" | some b => encBool b)
+  | ["corr_flags", f] => some (encFlags (corrFlags (decStdFlags f)))
+  -- the four standard verdicts followed by the four xdoctest verdicts under the corresponding flags
+  | ["std_vs_xdoc", g, w] =>
+    let g := decStr g; let w := decStr w
+    some (String.join (allStdFlags.map fun f => encBool (stdCheck f g w)) ++ " " ++
+          String.join (allStdFlags.map fun f => encBool (checkOutput (corrFlags f) g w)))
+  -- end-to-end shape: the standard want carries the final newline, xdoctest's does not
+  | ["std_vs_xdoc_nl", g, w] =>
+    let g := decStr g; let w := decStr w
+    some (String.join (allStdFlags.map fun f => encBool (stdCheck f g (w ++ ['\n']))) ++ " " ++
+          String.join (allStdFlags.map fun f => encBool (checkOutput (corrFlags f) g w)))
+  | ["repl_got", out, ev] => some (encStr (replGot (decStr out) (decEval ev)))
   | _ => none
 
 end Xdoc.Driver
